@@ -335,13 +335,15 @@ namespace sim
       for (int i = 0; i < n; ++i)
         {
           comps.push_back(static_cast<unsigned>(i));
-          sizes.push_back(r.chance(0.5) ? -1.0 : r.real(0.05, 0.9));
+          // exactly representable with few digits, so that the value the parser stores is the value written
+          sizes.push_back(r.chance(0.5) ? -1.0 : static_cast<double>(r.range(3, 58)) / 64.0);
           normb.push_back(r.chance(0.5));
           norm.push_back(normb.back() ? "true" : "false");
         }
       kv.push_back({"compositions", inums(comps)});
       kv.push_back({"grain sizes", nums(sizes)});
       kv.push_back({"normalize grain sizes", list(norm)});
+      std::vector<double> defl_record;
       if (deflected)
         {
           std::vector<double> defl;
@@ -352,6 +354,7 @@ namespace sim
               defl.push_back(r.chance(0.2) ? (r.chance(0.5) ? 0.0 : 1.0) : r.real(0, 1));
               basis.push_back(euler ? nums({r.real(0, 360), r.real(0, 180), r.real(0, 360)}) : rotation_matrix(r));
             }
+          defl_record = defl;
           kv.push_back({"deflections", nums(defl)});
           kv.push_back({euler ? "basis Euler angles z-x-z" : "basis rotation matrices", list(basis)});
         }
@@ -365,6 +368,10 @@ namespace sim
           meta->grain_sizes = sizes;
           meta->normalize = normb;
           meta->deflected = deflected;
+          meta->min_deflection = 1.0;
+          if (deflected)
+            for (double dfl : defl_record)
+              meta->min_deflection = std::min(meta->min_deflection, dfl);
         }
       return obj(kv);
     }
@@ -379,9 +386,9 @@ namespace sim
       for (int i = 0; i < n; ++i)
         {
           comps.push_back(static_cast<unsigned>(i + 2));
-          const double a = r.real(0, 0.5);
+          const double a = static_cast<double>(r.range(0, 64)) / 128.0;
           lo.push_back(a);
-          hi.push_back(a + r.real(0.01, 0.5));
+          hi.push_back(a + static_cast<double>(r.range(1, 64)) / 128.0);
         }
       kv.push_back({"compositions", inums(comps)});
       kv.push_back({"min value", nums(lo)});
